@@ -89,7 +89,36 @@ def verify_contract(reg, c, timeout_ms=10000, feas_timeout_ms=2000, canary=True,
     res.stmts = sum(1 for x in __import__('ast').walk(node) if isinstance(x, __import__('ast').stmt)) - 1
     body = node.body
     frag = c.options.get('fragment_from')
-    if frag:
+    frag_after = c.options.get('fragment_after')
+    frag_before = c.options.get('fragment_before')
+    if frag_before:
+        # Fragment = the top-level statements BEFORE the first one whose source text contains the
+        # marker (the prefix of the real body; falling off its end is "return None")
+        import ast as _a
+        idxs = [i for i, st in enumerate(node.body) if frag_before in _a.unparse(st)]
+        if not idxs or idxs[0] == 0:
+            res.error = (f'fragment marker {frag_before!r} not found (or nothing before it) in the top-level '
+                         f'statements of {c.target}')
+            return res
+        body = node.body[:idxs[0]]
+        if body and isinstance(body[0], _a.Expr) and isinstance(getattr(body[0], 'value', None), _a.Constant) \
+                and isinstance(body[0].value.value, str):
+            body = body[1:]       # docstring
+        frag = None
+    elif frag_after:
+        # Fragment = everything after the LAST top-level statement whose source text contains the
+        # marker (more robust than naming the first statement of the fragment, which a change of
+        # the fragment itself may remove)
+        import ast as _a
+        idxs = [i for i, st in enumerate(node.body) if frag_after in _a.unparse(st)]
+        if not idxs or idxs[-1] + 1 >= len(node.body):
+            res.error = (f'fragment marker {frag_after!r} not found (or nothing after it) in the top-level '
+                         f'statements of {c.target}')
+            return res
+        body = node.body[idxs[-1] + 1:]
+        res.line = body[0].lineno
+        frag = frag_after
+    elif frag:
         # Fragment contract: the suffix of the REAL body that starts at the first top-level
         # statement whose source text starts with the marker; the locals listed as
         # fragment_inputs are arbitrary values of their declared sorts at that point.
@@ -192,7 +221,7 @@ def verify_contract(reg, c, timeout_ms=10000, feas_timeout_ms=2000, canary=True,
             # vacuity guard per return statement: is this exit reachable under everything that was
             # assumed on the way (callee contracts, invariants)?  A return line that NO path reaches
             # with a satisfiable path condition is reported as a checker error below.
-            rr = p.check(None, timeout=min(3000, timeout_ms))
+            rr = z3.sat if p.tainted else p.check(None, timeout=min(3000, timeout_ms))
             stat = reach.setdefault('returns', {}).setdefault(line, [0, 0])
             if rr == z3.unsat:
                 stat[1] += 1
